@@ -226,6 +226,26 @@ class SymFloat(float):
                 from .vf_decimal import Decimal  # pylint: disable=import-outside-toplevel
 
                 return SymNumStr(Decimal(("grid", self.n, self.GRID_K)).quantize(Decimal(("grid", Poly.const(1), k))))
+        if spec.endswith("g") and spec.startswith(".") and spec[1:-1].isdigit():
+            # N significant digits: the number of decimals depends on the decimal exponent of the value, found by forking
+            nsig = max(int(spec[1:-1]), 1)
+            from .vf_decimal import Decimal  # pylint: disable=import-outside-toplevel
+
+            if _c(self.n, "==", Poly.const(0)):
+                return SymNumStr(Decimal(("grid", Poly.const(0), 0)))
+            mag = self.n if _c(self.n, ">", Poly.const(0)) else -self.n
+            for e in range(-self.GRID_K, 13):
+                # 10^e <= |v| < 10^(e+1)  <=>  mag < 10^(e+1+GRID_K)
+                if _c(mag, "<", Poly.const(10 ** (e + 1 + self.GRID_K))):
+                    decimals = nsig - 1 - e
+                    if decimals >= self.GRID_K:
+                        return SymNumStr(Decimal(("grid", self.n, self.GRID_K)))
+                    if decimals >= 0:
+                        return SymNumStr(Decimal(("grid", self.n, self.GRID_K)).quantize(Decimal(("grid", Poly.const(1), decimals))))
+                    q = Decimal(("grid", self.n, self.GRID_K + (-decimals))).quantize(Decimal(("grid", Poly.const(1), 0)))
+                    q._mat()
+                    return SymNumStr(Decimal(("grid", q.n.scale(10 ** (-decimals)), 0)))
+            raise Unsupported("magnitude of a symbolic float outside the modelled range")
         raise Unsupported("format of a symbolic float with spec %r" % spec)
 
     def _cmp(self, op, o):
